@@ -269,7 +269,7 @@ package varlink
 //@   ensures [onereader C01 C02 C03 C10] gNewConn == old(gNewConn) + 1
 //@   ensures [closed C10 C14] closed[conn]
 //@   ensures [released C10 C14 C15] gCntDelta[s] == old(gCntDelta)[s] - 1 && wgDones[wg] == old(wgDones)[wg] + 1 && !held[s]
-//@   assert [strip C01 C02 C04 C10] at call(HandleMessage)#1 : err == nil && len(request) >= 1 && request[len(request) - 1] == 0 && arg3 == request[0:len(request) - 1] && arg2 == boxed(ctxConn) && arg0 == s
+//@   assert [strip C01 C02 C04 C10] at call(HandleMessage)#1 : len(request) >= 1 && request[len(request) - 1] == 0 && arg3 == request[0:len(request) - 1] && arg2 == boxed(ctxConn) && arg0 == s
 //@   assert [reader C02] at call(ReadBytes)#1 : arg0 == ctxConn && arg2 == 0
 //@   assert [close C10] at call(Close)#1 : arg0 == conn
 //@   loop 1 invariant [reader C01 C02 C03 C10] cstruct(ctxConn) && ctxConn.conn == conn && gNewConn == old(gNewConn) + 1 && !held[s]
